@@ -32,10 +32,11 @@ Log(a, args, exp) ==
   /\ last' = [a |-> a, args |-> args, exp |-> exp]
   /\ hist' = Append(hist, [a |-> a, args |-> args, exp |-> exp])
 
-Build ==
+BuildS(s) ==
   /\ phase = "init" /\ phase' = "built"
-  /\ pkt' = Stack(case) /\ UNCHANGED <<case, fill, wire, dec>>
-  /\ Log("Build", [pkt |-> pkt', d |-> case], [ok |-> TRUE])
+  /\ pkt' = s /\ UNCHANGED <<case, fill, wire, dec>>
+  /\ Log("Build", [pkt |-> s, d |-> case], [ok |-> TRUE])
+Build == BuildS(Stack(case))
 
 Pack ==
   /\ phase = "built" /\ phase' = "packed"
@@ -43,12 +44,13 @@ Pack ==
   /\ UNCHANGED <<case, pkt, dec>>
   /\ Log("Pack", [x |-> 0], Split(wire', PayLen(pkt)))
 
-Feed ==
+FeedS(s) ==
   /\ phase = "init" /\ phase' = "packed"
-  /\ pkt' = Stack(case)
-  /\ LET a == Asm(pkt', 1) IN wire' = a.b /\ fill' = a.v
+  /\ pkt' = s
+  /\ LET a == Asm(s, 1) IN wire' = a.b /\ fill' = a.v
   /\ UNCHANGED <<case, dec>>
-  /\ Log("Feed", [pkt |-> pkt', d |-> case, wire |-> Split(wire', PayLen(pkt'))], [ok |-> TRUE])
+  /\ Log("Feed", [pkt |-> s, d |-> case, wire |-> Split(wire', PayLen(s))], [ok |-> TRUE])
+Feed == FeedS(Stack(case))
 
 \* the header chain a caller sees after parsing: derived fields filled in,
 \* opaque payload kept as given
